@@ -18,6 +18,7 @@ import Noodles.Util.DriverC20
 import Noodles.Io.DriverC12
 import Noodles.Bgzf.DriverC16
 import Noodles.Cram.DriverC08
+import Noodles.Cram.DriverC07
 namespace Noodles
 open Noodles.Wire
 
@@ -41,6 +42,7 @@ def dispatch (line : String) : String :=
   | "c12" :: rest => IO.handleC12 rest
   | "c16" :: rest => Bgzf.Async.handleC16 rest
   | "c08" :: rest => Cram.DriverC08.handle rest
+  | "c07" :: rest => Cram.Drv.handleC07 rest
   | _ => "bad-suite"
 
 end Noodles
